@@ -186,10 +186,35 @@ _orig_pct = _core._PATCH_REGISTRATIONS[str.__mod__]
 _reent_pct = [False]
 
 
+def _is_strlike(x):
+    return isinstance(x, (str, B.AnySymbolicStr))
+
+
+def _simple_pct(fmt, args):
+    """'%s'-only formats whose arguments are all (possibly symbolic) strings / plain ints are rendered by concatenation, so
+    that values like '%s.pem' % host keep their meaning. Returns None when the format is anything else."""
+    parts = fmt.split('%s')
+    if len(parts) - 1 != len(args) or any('%' in p.replace('%%', '') for p in parts):
+        return None
+    out = parts[0].replace('%%', '%')
+    for a, p in zip(args, parts[1:]):
+        out = out + a + p.replace('%%', '%')
+    return out
+
+
 def _pct(self, other):
     with NoTracing():
-        if isinstance(self, str) and _has_symbolic(other):
-            return '<fmt:' + self + '>'
+        opaque = isinstance(self, str) and _has_symbolic(other)
+        args = other if isinstance(other, tuple) else (other,)
+        simple = opaque and type(self) is str and all(_is_strlike(a) for a in args)
+    if simple:
+        r = _simple_pct(self, args)
+        if r is not None:
+            return r
+    if opaque:
+        return '<fmt:' + self + '>'
+    with NoTracing():
+        pass
     if _reent_pct[0]:
         return self.__mod__(other)
     _reent_pct[0] = True
@@ -205,10 +230,33 @@ _orig_fmt = _core._PATCH_REGISTRATIONS[str.format]
 _reent_fmt = [False]
 
 
+def _simple_format(fmt, args):
+    """'{}' / '{0}'-style positional formats with (possibly symbolic) string arguments, by concatenation."""
+    import re as _re
+    pieces = _re.split(r'\{(\d*)\}', fmt)
+    if any('{' in p or '}' in p for p in pieces[0::2]):
+        return None
+    out = pieces[0]
+    auto = 0
+    for i in range(1, len(pieces), 2):
+        idx = int(pieces[i]) if pieces[i] != '' else auto
+        auto += 1
+        if idx >= len(args):
+            return None
+        out = out + args[idx] + pieces[i + 1]
+    return out
+
+
 def _fmt(self, /, *a, **kw):
     with NoTracing():
-        if isinstance(self, str) and (_has_symbolic(a) or _has_symbolic(kw)):
-            return '<fmt:' + self + '>'
+        opaque = isinstance(self, str) and (_has_symbolic(a) or _has_symbolic(kw))
+        simple = opaque and type(self) is str and not kw and all(_is_strlike(x) for x in a)
+    if simple:
+        r = _simple_format(self, a)
+        if r is not None:
+            return r
+    if opaque:
+        return '<fmt:' + self + '>'
     if _reent_fmt[0]:
         return self.format(*a, **kw)
     _reent_fmt[0] = True
